@@ -8,7 +8,8 @@ From HL7 Require Import Lib.Str Model.Ec Model.Escape Model.Result Model.Ref Mod
   Model.Leaf Model.Wf Model.Dump.
 From HL7 Require Import Gen.Params Gen.Tables.
 From HL7 Require Import Proofs.EscapeFacts Proofs.SplitJoin Proofs.LevelCodec Proofs.RoundTripStr Proofs.RoundTripCore
-  Proofs.RoundTripVT Proofs.RoundTripZ Proofs.RoundTripTables Proofs.RoundTripSeg Proofs.RoundTripSegTables.
+  Proofs.RoundTripVT Proofs.RoundTripZ Proofs.RoundTripTables Proofs.RoundTripSeg Proofs.RoundTripMsh
+  Proofs.RoundTripSegTables.
 Import ListNotations.
 Open Scope bs_scope.
 
@@ -124,7 +125,8 @@ Proof. split; vm_compute; reflexivity. Qed.
    empty or - not blank and - every repetition of it satisfies the condition that the table row of
    that position imposes (rep_text_ok):
      base-typed field b      : every leaf is fixed by the leaf encoder of b;
-     varies field            : every leaf is fixed by the ST encoder;
+     varies / untyped field  : every leaf is fixed by the ST encoder (untyped = the reserved
+                               positions of v2.5.1 whose row has no datatype);
      field of struct type D  : at most as many components as D defines, the last one not empty,
                                every non-empty component not blank and, by its own row in D,
                                either base-typed (leaves fixed) or of a flat struct type D2: at
@@ -272,4 +274,65 @@ Proof.
     by (vm_compute; reflexivity).
   apply vt_okb_sound in L. destruct L as [A [B C]]. split; [exact A|]. split; [exact B|]. split; [exact C|].
   vm_compute. reflexivity.
+Qed.
+
+(* ---- the MSH segment line: MSH + field separator + MSH-2 + the fields MSH-3 ... ----
+   MSH-1 is the field separator itself (parse_fields inserts it, Segment.to_er7 pops it), MSH-2
+   is kept verbatim and not split on the repetition character.  m2 is any MSH-2 text that is not
+   blank and contains neither the field separator nor CR; the fields fs from MSH-3 on satisfy the
+   same typed condition tfield_text as in C01_segment_text (positions 3, 4, ...). *)
+Theorem C01_segment_MSH : forall v t, tables_of v = Some t ->
+  forall e, ec_ok e ->
+  exists srows, slookup MSH (t_segments t) = Some (SSeqIn false srows None) /\
+  forall (m2 : str) (fs : list str),
+    is_blank m2 = false -> bmem (fsep e) m2 = false -> bmem CR m2 = false ->
+    no_trail (m2 :: fs) -> 2 + length fs <= length srows ->
+    (forall i f, In (i, f) (combine (seq 3 (length fs)) fs) -> tfield_text t e (leaf_enc v TOLERANT e) srows i f) ->
+    let text := bjoin (fsep e) (MSH :: m2 :: fs) in
+    exists s, parse_segment t TOLERANT e (leaf_enc v TOLERANT e) text None = Ok s /\
+              enc_segment t e s false = Ok text.
+Proof.
+  intros v t Ht e He.
+  destruct (shipped_table_facts v t Ht) as [Hst [Hvar [_ [f [mx Hrow]]]]].
+  destruct (shipped_msh_ok v t Ht) as [srows [row1 [row2 [inf1 [inf2 [Hl [Hc [Hrows [Hn1 [Hn2 [Hr1 [Hr2 [Hd1 Hd2]]]]]]]]]]]]].
+  exists srows. split; [exact Hl|]. intros m2 fs Hb Hf Hcr Hnt Hlen Hfs.
+  exact (msh_roundtrip t e (leaf_enc v TOLERANT e) He Hst Hvar srows Hl Hc Hrows row1 row2 inf1 inf2
+           Hn1 Hn2 Hr1 Hr2 Hd1 Hd2 m2 _ _ fs Hb Hf Hcr (leaf_enc_ST v e _ f mx Hrow) (leaf_enc_ST v e _ f mx Hrow)
+           Hnt Hlen Hfs).
+Qed.
+Print Assumptions C01_segment_MSH.
+
+(* MSH-2 as written by hl7apy - the component, repetition, escape, subcomponent (and truncation)
+   characters of a valid delimiter set - satisfies the three conditions on m2 *)
+Theorem C01_MSH2_delimiters : forall p e, ec_valid p e = true ->
+  is_blank (msh2_of e) = false /\ bmem (fsep e) (msh2_of e) = false /\ bmem CR (msh2_of e) = false.
+Proof.
+  intros p e H. unfold ec_valid in H. apply andb_prop in H. destruct H as [Hn Hf].
+  apply msh2_props; [now apply nodupb_NoDup|].
+  intros c Hc. pose proof (forallb_In _ _ _ Hf Hc) as G. cbn in G.
+  apply andb_prop in G. destruct G as [_ G]. now apply negb_true_iff in G.
+Qed.
+Print Assumptions C01_MSH2_delimiters.
+
+Definition msh_rows25 : list srow :=
+  match slookup MSH (t_segments Gen.Tables_v2_5.tables) with Some (SSeqIn _ rows _) => rows | _ => [] end.
+Definition msh_fields : list str := bsplit "|" "a^b|c||d~e|20200101120000||ADT^A01^ADT_A01|1|P|2.5".
+
+Example C01_segment_MSH_example :
+  let t := Gen.Tables_v2_5.tables in
+  let lf := leaf_enc "2.5" TOLERANT default_ec in
+  slookup MSH (t_segments t) = Some (SSeqIn false msh_rows25 None) /\
+  msh2_of default_ec = unbs "^~\&" /\
+  no_trail (msh2_of default_ec :: msh_fields) /\ 2 + length msh_fields <= length msh_rows25 /\
+  (forall i f, In (i, f) (combine (seq 3 (length msh_fields)) msh_fields) -> tfield_text t default_ec lf msh_rows25 i f) /\
+  bjoin (fsep default_ec) (MSH :: msh2_of default_ec :: msh_fields) =
+    unbs "MSH|^~\&|a^b|c||d~e|20200101120000||ADT^A01^ADT_A01|1|P|2.5".
+Proof.
+  cbv zeta. split; [vm_compute; reflexivity|]. split; [reflexivity|].
+  split; [apply no_trailb_sound; vm_compute; reflexivity|].
+  split; [apply Nat.leb_le; vm_compute; reflexivity|]. split; [|vm_compute; reflexivity].
+  assert (L : forallb (fun p => tfield_textb Gen.Tables_v2_5.tables default_ec (leaf_enc "2.5" TOLERANT default_ec)
+                                  msh_rows25 (fst p) (snd p)) (combine (seq 3 (length msh_fields)) msh_fields) = true)
+    by (vm_compute; reflexivity).
+  intros i f Hif. rewrite forallb_forall in L. apply tfield_textb_sound. exact (L _ Hif).
 Qed.
